@@ -137,6 +137,10 @@ type c08Case struct {
 	// SlowMs: every read of the source takes this long before it delivers (an entropy pool that blocks): the secret is still
 	// made of the bytes the source delivers, however long that takes - not of a substitute produced while waiting
 	SlowMs int `json:"slow_ms,omitempty"`
+	// Via 5 / 6: the application has installed OTHER values (8 or 9 digits, SHA-256 / SHA-512, other periods) as the exported
+	// default parameter sets, written into the structs / with the pointers replaced: RandomSecret takes its hash as an
+	// argument, and SHA-1 - the zero value of the enum - still means SHA-1
+	Via int `json:"via_default,omitempty"`
 }
 
 func sizeOf(algo int) int {
@@ -184,6 +188,8 @@ func checkC08(c c08Case) (v verdict) {
 	st.set(c.Seed, c.Konst, c.Chunk)
 	st.slow.Store(int64(c.SlowMs) * 1_000_000)
 	defer st.slow.Store(0)
+	_, restoreDefaults := viaDefault(c.Via, &otp.Param{})
+	defer restoreDefaults()
 	sizes := map[int]bool{}
 	unsupportedBetween, otherOps, readAhead := false, false, false
 	succ := 0
@@ -339,7 +345,7 @@ func checkC08(c c08Case) (v verdict) {
 }
 
 var c08Main = newPart("C08", "histories",
-	"rapid: call histories of 1..24 RandomSecret calls with algorithm values 0..255 (biased to the three hashes), crypto/rand.Reader replaced by a recording endless stream (SHA-256 counter-mode PRF of a drawn seed, or a constant byte 0x00/0xff/other) delivered in full or in short reads of 1..7 bytes, plus enumerated histories over a source that blocks 300 ms (thorough: also 1.5 s, 5.5 s) before each delivery; model = stream cursor: k-th successful call returns exactly unpadded upper-case base32 of stream[cur:cur+20|32|64], consumes exactly that many bytes, DecodeSecret maps it back, and every secret returned earlier in the history is still unchanged; unsupported algorithm => error, no secret, nothing consumed; in between, other exported operations (rendering algorithm values, URL builders with and without a secret, HOTP) which must not change any of this — a secret a URL builder generates for an empty Secret is held to the same rule; non-trivial = >= 2 successful calls of different sizes or an unsupported call after a successful one",
+	"rapid: call histories of 1..24 RandomSecret calls with algorithm values 0..255 (biased to the three hashes), crypto/rand.Reader replaced by a recording endless stream (SHA-256 counter-mode PRF of a drawn seed, or a constant byte 0x00/0xff/other) delivered in full or in short reads of 1..7 bytes, in two cases of five while the application has other values installed as the exported default parameter sets, plus enumerated histories over a source that blocks 300 ms (thorough: also 1.5 s, 5.5 s) before each delivery; model = stream cursor: k-th successful call returns exactly unpadded upper-case base32 of stream[cur:cur+20|32|64], consumes exactly that many bytes, DecodeSecret maps it back, and every secret returned earlier in the history is still unchanged; unsupported algorithm => error, no secret, nothing consumed; in between, other exported operations (rendering algorithm values, URL builders with and without a secret, HOTP) which must not change any of this — a secret a URL builder generates for an empty Secret is held to the same rule; non-trivial = >= 2 successful calls of different sizes or an unsupported call after a successful one",
 	checkC08)
 
 func genC08(t *rapid.T) c08Case {
@@ -350,6 +356,7 @@ func genC08(t *rapid.T) c08Case {
 	if rapid.IntRange(0, 2).Draw(t, "chunkKind") == 0 {
 		c.Chunk = rapid.IntRange(1, 7).Draw(t, "chunk")
 	}
+	c.Via = rapid.SampledFrom([]int{0, 0, 0, 5, 6}).Draw(t, "viaDefault")
 	c.Ops = rapid.SliceOfN(rapid.Custom(func(t *rapid.T) int {
 		switch rapid.IntRange(0, 7).Draw(t, "opKind") {
 		case 0:
